@@ -173,7 +173,8 @@ func runCase(c caseT) (viol []string, held bool) {
 		case 2:
 			return c.CloseTimeout / 2
 		case 3:
-			return c.CloseTimeout + c.CloseTimeout/2
+			// far beyond the timeout: a Close caller that is scheduled late (loaded machine) must still time out first
+			return 3 * c.CloseTimeout
 		}
 		return 0
 	}()
@@ -411,7 +412,7 @@ func runCase(c caseT) (viol []string, held bool) {
 		}
 	}
 	// let late handlers (timeouts) finish before the next case
-	lib.WaitUntil(2*c.CloseTimeout+time.Second, func() bool {
+	lib.WaitUntil(4*c.CloseTimeout+time.Second, func() bool {
 		for _, s := range w.snapshot() {
 			if s.started && !s.ended {
 				return false
